@@ -361,7 +361,14 @@ pub fn panic_msg(p: &Box<dyn std::any::Any + Send>) -> String {
 
 /// run a SUT call under catch_unwind; `Err(msg)` when it panicked
 pub fn guarded<R>(f: impl FnOnce() -> R) -> Result<R, String> {
-	catch_unwind(AssertUnwindSafe(f)).map_err(|p| panic_msg(&p))
+	GUARD_DEPTH.with(|g| g.set(g.get() + 1));
+	let r = catch_unwind(AssertUnwindSafe(f)).map_err(|p| panic_msg(&p));
+	GUARD_DEPTH.with(|g| g.set(g.get() - 1));
+	r
+}
+
+thread_local! {
+	static GUARD_DEPTH: std::cell::Cell<u32> = const { std::cell::Cell::new(0) };
 }
 
 fn minimise<C: Check>(chk: &C, case: &C::Case, class: &(String, String, String)) -> (C::Case, usize) {
@@ -391,7 +398,11 @@ fn minimise<C: Check>(chk: &C, case: &C::Case, class: &(String, String, String))
 
 pub fn silence_panics() {
 	// SUT panics are caught and classified by the checks; keep stderr readable
-	std::panic::set_hook(Box::new(|_| {}));
+	std::panic::set_hook(Box::new(|info| {
+		if GUARD_DEPTH.with(|g| g.get()) == 0 {
+			eprintln!("harness panic (outside a guarded SUT call): {info}");
+		}
+	}));
 }
 
 pub fn run_check<C: Check>(chk: &C, tier: Tier) -> Outcome {
